@@ -15,6 +15,10 @@ use serde_json::{json, Value};
 use std::collections::BTreeMap;
 use std::collections::BTreeSet;
 
+// bulk feed for the extracted model (mlrun/): a child module, so that it runs this module's private `observe`
+#[path = "bulk16.rs"]
+pub mod bulk16;
+
 type TextRes = Result<Option<Vec<u8>>, ()>;
 type NameRes = Result<(Option<Vec<u8>>, bool), ()>;
 type AttrRes = Result<(Option<Vec<u8>>, Option<Vec<u8>>, bool), ()>;
@@ -517,12 +521,12 @@ const FRAGMENTS: &[&[u8]] = &[
     b"<noframes>", b"<a b=c d='e' f=\"g\" h>", b"<a b=c>", b" d='e'", b" f=\"g\"", b" h", b"<SCRIPT>", b"</SCRIPT>", b"<TITLE>", b"</Title>",
     b"<TextArea>", b"<PLAINTEXT>", b"<!DocType", b"<A B=C>", b"</A>", b"\x00", b"<br/>", b"<p/ >", b"</p>", b"</ p>", b"--!>", b"<script", b"</scrip",
     b"</script ", b"</script/", b"<!", b"<?", b"<?xml?>", b"</>", b"< ", b"<<", b"<</title>", b"\xc3\x89", b"<a\xc3\x89 \xc3\x89=\xc3\x89>", b"</\xc3\x89>",
-    b"<b\xc4\xb0>", b" x = \"y\"", b"='", b"=\"", b"= >", b"\t", b"\n", b"\x0c", b"\r", b"<!-", b"<!>", b"<!-->", b"<!--->", b"<![cdata[", b"<![CDATA",
+    b"<b\xc4\xb0>", b"<a href=/\xc3\xa0-propos>", b" t=\xc3\x85", b" u=\xe2\x80\xa0 ", b"</\xe2\x82\xac", b"</ti\xf0\x9f\x98\x80", b"</\xe9", b" x = \"y\"", b"='", b"=\"", b"= >", b"\t", b"\n", b"\x0c", b"\r", b"<!-", b"<!>", b"<!-->", b"<!--->", b"<![cdata[", b"<![CDATA",
 ];
 
 const SCRIPT_FRAGMENTS: &[&[u8]] = &[
     b"<!--", b"-->", b"<script", b"<script>", b"<script ", b"</script", b"</script>", b"</script ", b"<SCRIPT>", b"</SCRIPT>", b"<!-", b"--", b"-", b"<", b"/",
-    b">", b" ", b"x", b"<a", b"</", b"</s", b"<s", b"<scrip", b"<scriptx", b"</scriptx", b"!", b"<!--<script>", b"</script>-->", b"1<2", b"\xc3\xa9",
+    b">", b" ", b"x", b"<a", b"</", b"</s", b"<s", b"<scrip", b"<scriptx", b"</scriptx", b"!", b"<!--<script>", b"</script>-->", b"1<2", b"\xc3\xa9", b"</\xe2\x82\xac", b"</scr\xf0\x9f\x98\x80", b"</\xff",
     b"<!-- -", b"x-", b"-x", b"<!--<", b"<!--<s", b"<!--<script>-", b"<!--<script>--", b"<!--<script><", b"<!--<script></", b"<!--x-<", b"<!--<script>x-<",
 ];
 
@@ -536,6 +540,38 @@ fn case(bytes: &[u8], ctx: &str) -> Value {
     } else {
         json!({ "bytes": bytes, "ctx": ctx })
     }
+}
+
+/// Templates with a hole (0xFF marks it; 0xFF never occurs otherwise): the hole is filled with every single byte, every
+/// two-byte UTF-8 character of U+0080..U+00FF and U+0100..U+017F, and a few three / four byte characters, so that a
+/// byte-class decision of ANY tokenizer state (white space, letter, quote, high byte, continuation bytes that coincide
+/// with Latin-1 white space such as 0x85 / 0xA0) is exercised in place, followed by ordinary markup.
+const HOLES: &[&[u8]] = &[
+    b"\xff", b"<\xff", b"<a\xff>", b"<a \xff=1>", b"<a b=\xff>", b"<a b=c\xffd e=f>", b"<a b='\xff'>", b"<a b=\"\xff\">", b"<a b \xff>", b"<a/\xff>",
+    b"</\xff>", b"</a\xff>", b"<!--\xff-->", b"<!\xff>", b"<!DOCTYPE\xff>", b"<?\xff>", b"<![CDATA[\xff]]>",
+    b"<title></\xff", b"<title></ti\xff", b"<title>\xff</title>", b"<script></\xff", b"<script></scr\xff", b"<script><!--\xff", b"<script><!--<script></\xff",
+    b"<textarea></\xfftextarea>", b"<style>\xff</style>x", b"<a b=\xff", b"<a b=x\xff", b"<a \xff",
+];
+fn hole_fillers() -> Vec<Vec<u8>> {
+    let mut v: Vec<Vec<u8>> = (0u16..256).map(|b| vec![b as u8]).collect();
+    for cp in 0x80u32..0x180 { v.push(char::from_u32(cp).unwrap().to_string().into_bytes()); }
+    for c in ["\u{2020}", "\u{20ac}", "\u{5805}", "\u{2028}", "\u{3000}", "\u{feff}", "\u{1f600}", "\u{10ffff}", "\u{0130}", "\u{212a}"] { v.push(c.as_bytes().to_vec()); }
+    v
+}
+fn gen_byte_sweep(thorough: bool) -> Vec<Value> {
+    let fillers = hole_fillers();
+    let mut out = Vec::new();
+    for (ti, t) in HOLES.iter().enumerate() {
+        let pos = t.iter().position(|b| *b == 0xff).unwrap();
+        for (fi, f) in fillers.iter().enumerate() {
+            // quick tier: every single byte everywhere; the multi-byte fillers on a rotating third of the templates
+            if !thorough && fi >= 256 && (fi + ti) % 3 != 0 { continue; }
+            let mut s = t[..pos].to_vec(); s.extend_from_slice(f); s.extend_from_slice(&t[pos + 1..]);
+            let ctx = if ti % 7 == 6 && fi % 5 == 0 { "title" } else { "" };
+            out.push(case(&s, ctx));
+        }
+    }
+    out
 }
 
 fn gen_exhaustive(max_len: usize) -> Vec<Value> {
@@ -627,6 +663,7 @@ fn gen_bytes(rng: &mut Rng) -> Vec<u8> {
 pub fn generate(seed: u64, thorough: bool) -> Vec<Value> {
     let mut rng = Rng::new(seed ^ 0x16);
     let mut cases = gen_exhaustive(if thorough { 4 } else { 3 });
+    cases.extend(gen_byte_sweep(thorough));
     let n_markup = if thorough { 10000 } else { 2500 };
     let n_bytes = if thorough { 2000 } else { 500 };
     for _ in 0..n_markup {
